@@ -32,6 +32,9 @@ RULE = ('random API-built designs from gen_designs without nand (15 primitive op
         'every wire on every cycle and the final memory are compared with pyrtl.Simulation and Sem.  A case '
         'is one (design, option, stimulus); non-trivial when at least one Output takes two values.  '
         'Testbench: (design, simulator, option) with random register_value_map / memory_value_map.  '
+        'History: a subset of designs is exported (module under the three options + testbench, each twice: '
+        'identical text required), then EXTENDED IN PLACE (new Input, Register, Outputs, read ports, sometimes a '
+        'new written memory) and only the export of the extended block goes through tie + search + testbench.  '
         'Targeted: every IEEE 1364-2001 keyword as a wire name; sanitizer-prefix, mem_<id> and '
         'testbench-identifier name collisions.')
 IMPORTS = ('From PyRTL Require Import Netlist.Sem Netlist.WFDefs Netlist.SpecHarness IO.VerilogHarness.')
@@ -196,7 +199,7 @@ def design_replay(ctx, i, d, extra):
 
 def make_case(ctx, i):
     rng = ctx.sub_rng('design', i)
-    wide = 0.08 if i % 4 else 0.35
+    wide = 0.08 if (i if isinstance(i, int) else i[1]) % 4 else 0.35
     ops = ['&', '|', '^', '~', '+', '-', '*', '<', '>', '==', '!=', '<=', '>=', 'mux', 'concat', 'slice',
            'index', 'const', 'trunc', 'zext', 'sext', 'memrd', 'romrd', 'select']
     d = gen_designs.make_design(rng, wide_prob=wide, ops_subset=ops,
@@ -209,11 +212,87 @@ def make_case(ctx, i):
 
 # ---------------------------------------------------------------- module: tie + search
 
-def module_cases(ctx, n):
+def extend_in_place(rng, d):
+    """add logic to the SAME Block object after it has been exported once: a new Input, a new Register, new
+    Outputs driven by existing wires, a new read port on an existing memory/ROM, a new written memory"""
+    block = d.block
+    added = []
+    with pyrtl.set_working_block(block, no_sanity_check=True):
+        pool = sorted((w for w in block.wirevector_set
+                       if not isinstance(w, (pyrtl.Output, pyrtl.Const))), key=lambda w: w.name)
+        pick = lambda: rng.choice(pool)
+        a, b = pick(), pick()
+        hin = pyrtl.Input(rng.choice([1, 2, 3, 5]), 'hist_in0')
+        d.inputs.append(hin)
+        o0 = pyrtl.Output(name='hist_out0')
+        o0 <<= a + b
+        added.append('output=a+b')
+        hr = pyrtl.Register(len(a), 'hist_r0', reset_value=gen_designs.boundary_value(rng, len(a)))
+        hr.next <<= a ^ gen_designs.fit(rng, hin, len(a))
+        d.regs.append(hr)
+        o1 = pyrtl.Output(name='hist_out1')
+        o1 <<= pyrtl.concat(hr, hin)
+        added.append('register+input')
+        for k, m in enumerate(d.mems + d.roms):
+            if rng.random() < 0.7:
+                o = pyrtl.Output(name='hist_rd%d' % k)
+                o <<= pyrtl.as_wires(m[gen_designs.fit(rng, pick(), m.addrwidth)])
+                added.append('read-port')
+        if rng.random() < 0.5:
+            hm = pyrtl.MemBlock(bitwidth=rng.choice([1, 3, 4]), addrwidth=2, name='hist_mem',
+                                max_read_ports=None, max_write_ports=None, asynchronous=True)
+            hm[gen_designs.fit(rng, pick(), 2)] <<= pyrtl.MemBlock.EnabledWrite(
+                gen_designs.fit(rng, pick(), hm.bitwidth), hin[0])
+            o = pyrtl.Output(name='hist_memrd')
+            o <<= pyrtl.as_wires(hm[gen_designs.fit(rng, hr, 2)])
+            d.mems.append(hm)
+            added.append('new-memory')
+    d.outputs = sorted(block.wirevector_subset(pyrtl.Output), key=lambda w: w.name)
+    return added
+
+
+def history_prefix(ctx, i, d, memmap, inputs):
+    """export the block (module under the three options + a testbench), export it again unchanged and require
+    identical text; returns False if the second export differs"""
+    block = d.block
+    same = True
+    try:
+        _, tracer = simulate(pyrtl.Simulation, d, {}, memmap, inputs, 0)
+        for add_reset, _, mname in MODES:
+            t1, t2 = export(block, add_reset), export(block, add_reset)
+            b1, b2 = export_tb(block, tracer, add_reset), export_tb(block, tracer, add_reset)
+            if t1 != t2 or b1 != b2:
+                same = False
+                report_once(ctx, 'verilog:unstable-text', 'two exports of the same unchanged block differ (design %d, '
+                            'add_reset=%r, %s)' % (i, add_reset, 'module' if t1 != t2 else 'testbench'),
+                            design_replay(ctx, i, d, {'add_reset': add_reset, 'history': 'export twice'}))
+    except (pyrtl.PyrtlError, pyrtl.PyrtlInternalError) as e:
+        ctx.count('export', 'rejected:' + str(e)[:40])
+    ctx.count('history', 'same-text' if same else 'text-differs')
+    ctx.case(('hist-same', i), nontrivial=True)
+    return same
+
+
+def module_cases(ctx, n, n_hist):
+    """n fresh designs exported once; then n_hist designs with a history: exported (module + testbench, twice,
+    identical text required), EXTENDED IN PLACE, and only then put through the same tie + search"""
     exprs, meta, spec_exprs, spec_meta = [], [], [], {}
     tb_jobs = []
-    for i in range(n):
+    plan = [(i, False) for i in range(n)] + [(('h', k), True) for k in range(n_hist)]
+    for i, hist in plan:
         d, renamed, regmap, memmap, inputs = make_case(ctx, i)
+        history = []
+        if hist:
+            rng = ctx.sub_rng('history', i)
+            history_prefix(ctx, i, d, memmap, inputs)
+            try:
+                history = extend_in_place(rng, d)
+            except (pyrtl.PyrtlError, pyrtl.PyrtlInternalError) as e:
+                ctx.count('history', 'extension-rejected:' + type(e).__name__)
+                continue
+            regmap, memmap, inputs = gen_designs.make_stimulus(rng, d, len(inputs))
+            for h in history:
+                ctx.count('history', h)
         block = d.block
         wid0 = nlx.Dump(block).wid
         try:
@@ -230,13 +309,27 @@ def module_cases(ctx, n):
                 continue
             rep = design_replay(ctx, i, d, {'add_reset': add_reset, 'renamed': [short(x) for x in renamed],
                                            'inputs': [{short(k): v for k, v in s.items()} for s in inputs]})
+            if hist:
+                rep['history'] = ('exported module+testbench under all options, then extended in place with %s, '
+                                  'then exported again (this text)' % history)
+                rep['text'] = text[:3000]
             try:
                 mod = vr.parse_module(text)
                 idmap, rev = ident_map(block, wid0, mod)
             except vr.ReaderError as e:
                 sig = 'verilog:unreadable:' + re.sub(r'[^a-z ]', '', str(e).split(':')[0].lower())[:40].strip()
-                report_once(ctx, sig, 'emitted module is not in the Verilog-2001 subset / not legal: %s' % e,
+                if hist:
+                    sig = 'verilog:stale-after-extension'
+                report_once(ctx, sig, 'emitted module is not in the Verilog-2001 subset / not legal: %s%s' % (
+                    e, ' (second export of a block extended after its first export)' if hist else ''),
                             dict(rep, text=text[:3000]))
+                continue
+            stale = set(w.name for w in block.wirevector_set) - set(rev[nm].name for nm in rev)
+            if hist and (stale or len(mod.declared()) != len(block.wirevector_set)):
+                report_once(ctx, 'verilog:stale-after-extension',
+                            'second export of a block extended in place after its first export does not declare the '
+                            'wires added since: %s (design %r, add_reset=%r)' % (
+                                sorted(short(x) for x in stale)[:8], i, add_reset), rep)
                 continue
             if dump is None:
                 dump = nlx.Dump(block, net_order=net_order(block, mod, rev))
@@ -255,7 +348,7 @@ def module_cases(ctx, n):
                 dump.coq(), coq_mode, mterm, nlx.zlist(order), dump.memmap(memmap), dump.inputs(inputs),
                 nlx.pairs(probes)))
             names = dump.names()
-            meta.append(dict(i=i, mode=mname, add_reset=add_reset, names=names, rep=rep, block=block,
+            meta.append(dict(i=i, mode=mname, add_reset=add_reset, names=names, rep=rep, block=block, hist=hist,
                              impl_trace=[[tracer.trace[nm][t] for nm in names] for t in range(len(inputs))],
                              impl_mem=[sim.memvalue[mid].get(a, 0) for (mid, a) in probes],
                              outputs=[k for k, w in enumerate(dump.wires) if isinstance(w, pyrtl.Output)],
@@ -274,7 +367,8 @@ def module_cases(ctx, n):
             ctx.count('memories', len(d.mems))
             ctx.count('roms', len(d.roms))
             ctx.count('renamed_wires', len(renamed))
-            if i < (20 if ctx.tier == 'quick' else 80) and len(dump.wires) <= 60:
+            small = len(dump.wires) <= (90 if hist else 60)
+            if small and (hist or i < (20 if ctx.tier == 'quick' else 80)):
                 tb_jobs.append((i, d, idmap, dump, regmap, memmap, inputs))
     shard = 12 if ctx.tier == 'quick' else 40
     spec = ctx.coq_eval(spec_exprs, IMPORTS, tag='c05spec', shard=shard, jobs=12)
@@ -307,7 +401,7 @@ def judge_module(ctx, c, r, spec):
     varying = any(len({row[k] for row in c['impl_trace']}) > 1 for k in c['outputs'])
     key = (c['i'], c['mode'], hashlib.sha1(repr(c['impl_trace']).encode()).hexdigest()[:12])
     sample = None
-    if c['i'] < 2 and c['mode'] == 'sync':
+    if c['i'] in (0, 1, ('h', 0)) and c['mode'] == 'sync':
         sample = {'design': c['i'], 'add_reset': c['add_reset'], 'assigns': [
             '%s = %s' % (short(l), short(repr(e))) for l, e in c['mod'].assigns if e[0] != 'dec'][:6],
             'always': {'mode': c['mod'].mode, 'resets': [(short(l), e[1]) for l, e in c['mod'].resets[:3]]},
@@ -354,7 +448,7 @@ def testbench_cases(ctx, jobs):
         rng = ctx.sub_rng('tb', i)
         block = d.block
         for sname, cls in SIMS:
-            if sname == 'compiled' and i >= (8 if ctx.tier == 'quick' else 30):
+            if sname == 'compiled' and (isinstance(i, tuple) or i >= (8 if ctx.tier == 'quick' else 30)):
                 continue
             dflt = 0 if (sname == 'compiled' or rng.random() < 0.7) else 1
             add_reset, _, mname = MODES[rng.randrange(3)]
@@ -498,8 +592,8 @@ def collide(ctx, sig, what):
 
 def run(ctx):
     _reported.clear()
-    n = 50 if ctx.tier == "quick" else 900
-    tb_jobs = module_cases(ctx, n)
+    n, n_hist = (44, 8) if ctx.tier == "quick" else (850, 80)
+    tb_jobs = module_cases(ctx, n, n_hist)
     testbench_cases(ctx, tb_jobs)
     targeted(ctx)
 
